@@ -207,7 +207,7 @@ inductive Err where
 def codepointsToString (l : List Int) : Except Err Str :=
   l.mapM fun v => if IsXmlChar v then .ok v.toNat else .error .FOCH0001
 
-def stringToCodepoints (s : Str) : List Int := s.map Int.ofNat
+def stringToCodepoints (s : Str) : List Int := s.map fun (c : Nat) => (c : Int)
 
 /-! ### F&O §5.4.7/§5.4.8 `fn:upper-case` / `fn:lower-case`
 Defined by the Unicode default case conversion; the mapping tables are a parameter (`up c` is the
@@ -290,5 +290,48 @@ def escape (allowed : Nat → Bool) (s : Str) : Except Err Str :=
 def encodeForUri := escape unreserved
 def iriToUri := escape iriAllowed
 def escapeHtmlUri := escape htmlAllowed
+
+/-! ### Arguments of type `xs:string?`
+F&O words it per function: "If the value of `$arg` is the empty sequence, the function returns the
+zero-length string" (substring, string-length → 0, normalize-space, upper-case, lower-case,
+translate, encode-for-uri, iri-to-uri, escape-html-uri, substring-before/after), "the empty
+sequence is interpreted as the zero-length string" (contains, starts-with, ends-with, concat),
+"returns the empty sequence if either argument is the empty sequence" (compare, codepoint-equal),
+`string-to-codepoints(())` is `()`.  `translate`'s 2nd/3rd argument and `string-join`'s separator
+are `xs:string`: the empty sequence is a type error [err:XPTY0004]. -/
+
+/-- "the empty sequence is interpreted as the zero-length string" -/
+def orEmpty : Option Str → Str
+  | none => []
+  | some s => s
+
+/-- result is the empty sequence when an argument is -/
+def lift2 {α : Type} (f : Str → Str → α) : Option Str → Option Str → Option α
+  | some a, some b => some (f a b)
+  | _, _ => none
+
+inductive TypeErr where
+  | XPTY0004
+  deriving DecidableEq, Repr
+
+/-- an `xs:string` (not optional) argument -/
+def required : Option Str → Except TypeErr Str
+  | none => .error .XPTY0004
+  | some s => .ok s
+
+def fnTranslate (arg map trans : Option Str) : Except TypeErr Str := do
+  let m ← required map
+  let t ← required trans
+  pure (translate (orEmpty arg) m t)
+
+/-- XPath 1.0 §4.2 (and the XPath 1.0 compatibility mode of 2.0): every argument of `translate` "is
+converted to a string as if by calling the string function"; the string value of an empty node-set
+is the empty string (§4.2 `string`). -/
+def fnTranslate10 (arg map trans : Option Str) : Str :=
+  translate (orEmpty arg) (orEmpty map) (orEmpty trans)
+
+def fnStringJoin (items : List Str) (sep : Option Str) : Except TypeErr Str := do
+  let s ← required sep
+  pure (stringJoin items s)
 
 end EPV.FOStrings
